@@ -40,6 +40,20 @@ def run_instance(rep, prop, desc, inst, max_patterns=1 << 17, only_alpha=None):
     cspuz = load_repo()
     from cspuz import Solver
     s = Solver()
+    caller0 = None
+    if desc.get("twice"):
+        # frame condition "two postings on one solver constrain their operands independently": the same
+        # emitter is first run on a separate set of caller variables of the same solver; that first posting
+        # is later fixed to the reversed pattern (for grids: the board rotated by 180 degrees) whenever the
+        # reversed pattern itself satisfies the predicate, and the verdict on alpha must not change
+        try:
+            caller0 = inst.declare(s)
+            inst.emit(s, caller0)
+        except Exception:
+            caller0 = None
+            s = Solver()
+    nv_first = len(s.variables)
+    nc_first = len(s.constraints)
     caller = inst.declare(s)
     nv0, nc0 = len(s.variables), len(s.constraints)
     vars0 = list(s.variables)
@@ -72,7 +86,7 @@ def run_instance(rep, prop, desc, inst, max_patterns=1 << 17, only_alpha=None):
         viol("frame", "answer-key", "an auxiliary variable was registered as answer key")
     if any(v.id != i for i, v in enumerate(s.variables)):
         viol("frame", "ids", "variable ids are not their positions")
-    phi = s.constraints[nc0:]
+    phi = s.constraints[nc0:] + (s.constraints[:nc_first] if caller0 is not None else [])
     zv, bounds = den.declare(s.variables)
     z = z3.Solver()
     z.add(bounds)
@@ -98,6 +112,18 @@ def run_instance(rep, prop, desc, inst, max_patterns=1 << 17, only_alpha=None):
                 p = z3.Bool("p_%d_%d" % (v.id, val))
                 z.add(p == (zv[v.id] == val))
                 lits[v.id][val] = p
+    lits0 = None
+    if caller0 is not None and len(caller0) == len(caller) and inst.ghost is None:
+        lits0 = {}
+        for v in caller0:
+            if den.kind_of(v) == "bool":
+                lits0[v.id] = {True: zv[v.id], False: z3.Not(zv[v.id])}
+            else:
+                lits0[v.id] = {}
+                for val in den.domain(v):
+                    p = z3.Bool("p0_%d_%d" % (v.id, val))
+                    z.add(p == (zv[v.id] == val))
+                    lits0[v.id][val] = p
     if only_alpha is not None:
         if isinstance(only_alpha, dict):
             only_alpha = only_alpha["alpha"]
@@ -122,6 +148,19 @@ def run_instance(rep, prop, desc, inst, max_patterns=1 << 17, only_alpha=None):
       for alpha in alphas:
         n += 1
         assumptions = [lits[v.id][val] for v, val in zip(caller, alpha)]
+        if caller0 is not None:
+            if lits0 is None:
+                continue
+            rev = list(alpha)[::-1]
+            try:
+                ok_rev = all(val in lits0[v.id] for v, val in zip(caller0, rev)) and inst.pred(rev)
+            except Exception:
+                ok_rev = False
+            if isinstance(ok_rev, tuple):
+                ok_rev = ok_rev[0]
+            if not ok_rev:
+                continue
+            assumptions = assumptions + [lits0[v.id][val] for v, val in zip(caller0, rev)]
         r = z.check(*assumptions)
         exp = inst.pred(list(alpha)) if inst.ghost is None else inst.pred(list(alpha), gp)
         exp_ret = None
@@ -206,6 +245,12 @@ def run_parallel(rep, prop, modname, descs, max_patterns=1 << 17, nproc=16):
     if others:
         seqs += [others + list(reversed(others))]
     tasks += [(modname, prop, sq, rep.tier, rep.seed, 192) for sq in seqs]
+    # two postings on one solver (see run_instance): a sample of all instances, the deep ones included
+    tw = [d for d in descs if d.get("deep")] + [d for d in descs if not d.get("deep")][:: max(1, len(descs) // 120)]
+    tw = [dict(d, twice=True) for d in tw]
+    ntw = min(len(tw), nproc) or 1
+    tasks += [(modname, prop, tw[i::ntw], rep.tier, rep.seed, 512) for i in range(ntw) if tw[i::ntw]]
+    rep.coverage["two_postings_on_one_solver"] = len(tw)
     rep.coverage["history_sequences"] = [len(sq) for sq in seqs]
     seen = set(v["signature"] for v in rep.violations)
     with ProcessPoolExecutor(nproc) as ex:
